@@ -111,6 +111,16 @@ pub(crate) mod kani_verif {
         assert!(MAX_TREE_HEIGHT == max_h, "MAX_TREE_HEIGHT is the largest configured height");
         assert!(MAX_NUM_WINTERNITZ_CHAINS == get_num_winternitz_chains(min_w, 32), "chain capacity covers the smallest allowed w at n = 32");
         assert!(MAX_ALLOWED_HSS_LEVELS >= 1 && MAX_ALLOWED_HSS_LEVELS <= REF_IMPL_MAX_ALLOWED_HSS_LEVELS, "level limit within the key format");
+        // capacity of the HSS signature buffer: every level contributes one LMS signature with that level's largest allowed
+        // parameters (RFC 8554 lengths at n = 32), every level but the first one LMS public key, plus the level word
+        let mut cap = 4 + (MAX_ALLOWED_HSS_LEVELS - 1) * (24 + 32);
+        i = 0;
+        while i < MAX_ALLOWED_HSS_LEVELS {
+            let (_u, _v, _ls, p) = crate::kani_support::spec_appendix_b(32, WINTERNITZ_PARAMETERS[i] as u32);
+            cap += 4 + (4 + 32 * (p as usize + 1)) + 4 + 32 * TREE_HEIGHTS[i];
+            i += 1;
+        }
+        assert!(MAX_HSS_SIGNATURE_LENGTH == cap, "HSS signature buffer = level word + per-level LMS signatures at the per-level limits + L-1 public keys");
         kani::cover!(true, "reachable");
     }
     // @h name=c14_build_constants_default props=C14 tier=quick kind=proved cfg=default funcs=build.rs contract="generated constants: MIN_WINTERNITZ_PARAMETER = min, MAX_TREE_HEIGHT = max, chain capacity for the smallest w (default build)"
